@@ -33,6 +33,9 @@ type GenConfig struct {
 	NamedModules  bool
 	Streaming     bool // streaming RPCs (breaks UNARY_RPC cleanliness)
 	SyntaxUnspec  bool // allow files without a syntax statement
+	// PackageCycles: files are assigned to packages in arbitrary order, so packages may import each
+	// other in cycles (the file import graph stays acyclic). Never with Styled.
+	PackageCycles bool
 }
 
 // DefaultConfig is a moderately sized wild configuration.
@@ -245,7 +248,9 @@ func GenWorkspace(t *rapid.T, cfg GenConfig) *Workspace {
 			pkgOfFile[i] = g.intn("filepkg", 0, nPkg-1)
 		}
 	}
-	sort.Ints(pkgOfFile)
+	if !cfg.PackageCycles || cfg.Styled {
+		sort.Ints(pkgOfFile)
+	}
 	if cfg.CustomOptions {
 		g.genOptionsFile(g.ws.Modules[0])
 	}
